@@ -89,8 +89,9 @@ func main() {
 
 	// ---------------- fillets and chamfers ----------------
 	var grid []v2.Vec
-	for x := 0; x < 5; x++ {
-		for y := 0; y < 5; y++ {
+	G := vlib.Pick(c, 5, 6) // thorough: 6x6 grid
+	for x := 0; x < G; x++ {
+		for y := 0; y < G; y++ {
 			grid = append(grid, v2.Vec{X: float64(x), Y: float64(y)})
 		}
 	}
@@ -282,6 +283,73 @@ func main() {
 			}
 		}
 	})
+	// the arc vertex at every position of a CLOSED polygon (first: the arc runs from the last vertex to the
+	// first; middle; last), third vertex on the side of the chord away from the bulge
+	states += c.ParFor(len(chords), func(i int) {
+		a, b := chords[i][0], chords[i][1]
+		d := norm(sub(b, a))
+		for _, rm := range []float64{0.5 * (1 + 1.0/(1<<20)), 1, 4} {
+			for _, sg := range []float64{1, -1} {
+				const f = 3
+				r := sg * rm * d
+				mid := mul(add(a, b), 0.5)
+				ab := unit(sub(b, a))
+				nrm := v2.Vec{X: ab.Y, Y: -ab.X}
+				c0 := add(mid, mul(nrm, sg*d))
+				h := math.Sqrt(math.Max(0, r*r-d*d/4))
+				ctr := add(mid, mul(nrm, sg*h))
+				for pos, order := range []string{"first", "middle", "last"} {
+					pg := sdf.NewPolygon()
+					switch pos {
+					case 0:
+						pg.AddV2(b).Arc(r, f)
+						pg.AddV2(c0)
+						pg.AddV2(a)
+					case 1:
+						pg.AddV2(a)
+						pg.AddV2(b).Arc(r, f)
+						pg.AddV2(c0)
+					case 2:
+						pg.AddV2(c0)
+						pg.AddV2(a)
+						pg.AddV2(b).Arc(r, f)
+					}
+					pg.Close()
+					vs := pg.Vertices()
+					atomic.AddInt64(&atr, 1)
+					desc := map[string]any{"a": a, "b": b, "third": c0, "radius": r, "facets": f, "arc_vertex_position": order, "closed": true}
+					cls := "r>0"
+					if sg < 0 {
+						cls = "r<0"
+					}
+					if n := len(vs); n > 1 && vs[0] == vs[n-1] {
+						vs = vs[:n-1]
+					}
+					ia := -1
+					for k, q := range vs {
+						if q == a {
+							ia = k
+						}
+					}
+					ok := ia >= 0 && len(vs) == 3+f-1
+					if ok {
+						for j := 1; j < f; j++ {
+							q := vs[(ia+j)%len(vs)]
+							if math.Abs(norm(sub(q, ctr))-math.Abs(r)) > 1e-9*(1+math.Abs(r)) || cross(sub(b, a), sub(q, a))*sg <= 0 {
+								ok = false
+							}
+						}
+						if vs[(ia+f)%len(vs)] != b {
+							ok = false
+						}
+					}
+					if !ok {
+						c.Violation("Polygon.Arc|closed-polygon|arc-vertex-"+order+"|"+cls, fmt.Sprintf("closed polygon, arc %v-%v r=%g facets=%d on the %s vertex: %v", a, b, r, f, order, vs), desc)
+					}
+				}
+			}
+		}
+	})
 	trans += atr
 	samples = append(samples, map[string]any{"arc_chords": len(chords), "radius_over_chord": []float64{0.5000005, 1, 4}, "facets": []int{2, 3, 8}})
 
@@ -380,7 +448,7 @@ func main() {
 		Rule:        "states = builder inputs (corner geometries, chords, chains, n-gons, control polygons); transitions = builder invocations checked against the independent construction; non-trivial = invocations",
 		Samples:     samples,
 		Exhaustive:  true,
-		Bounds:      map[string]any{"corner_grid": "5x5", "arc_grid": "5x5", "bezier_grid": "3x3, degree 1..4 (quick: every 6th of degree 4)", "radii": radii, "facets": facets},
+		Bounds:      map[string]any{"corner_grid": "5x5 (thorough 6x6)", "arc_grid": "5x5 (thorough 6x6)", "bezier_grid": "3x3, degree 1..4 (quick: every 6th of degree 4; thorough: also 4x4, degree 1..3)", "radii": radii, "facets": facets},
 		Assumptions: []string{"corners with the tangent distance within 1e-9 of an edge length are skipped (boundary of 'fits')", "arc side convention: the arc bulges to the left of a->b for a positive radius (the centre is on the right), as the code comment states", "Polar() takes the angle in radians"},
 	})
 }
